@@ -32,6 +32,7 @@
 
 #include <ctype.h>
 #include <limits.h>
+#include <stddef.h>
 #if !defined(_MSC_VER) || _MSC_VER > 1600
 #include <stdint.h>
 #endif
@@ -85,9 +86,12 @@ static void my_error_exit(j_common_ptr cinfo)
 
 /* Based on output_message() in jerror.c */
 
+static void set_instance_error(j_common_ptr cinfo);
+
 static void my_output_message(j_common_ptr cinfo)
 {
   (*cinfo->err->format_message) (cinfo, errStr);
+  set_instance_error(cinfo);
 }
 
 static void my_emit_message(j_common_ptr cinfo, int msg_level)
@@ -144,6 +148,19 @@ typedef struct _tjinstance {
   unsigned char *iccBuf, *tempICCBuf;
   size_t iccSize, tempICCSize;
 } tjinstance;
+
+/* Record a libjpeg API library message in the TurboJPEG instance that owns the
+   libjpeg API instance, so that tj3GetErrorStr() can return the message that
+   belongs to that instance rather than the most recent message in the calling
+   thread.  (cinfo->err points to the jerr.pub member of the instance.) */
+static void set_instance_error(j_common_ptr cinfo)
+{
+  tjinstance *this =
+    (tjinstance *)((char *)cinfo->err - offsetof(tjinstance, jerr));
+
+  SNPRINTF(this->errStr, JMSG_LENGTH_MAX, "%s", errStr);
+  this->isInstanceError = TRUE;
+}
 
 static tjhandle _tjInitCompress(tjinstance *this);
 static tjhandle _tjInitDecompress(tjinstance *this);
@@ -626,10 +643,13 @@ DLLEXPORT char *tj3GetErrorStr(tjhandle handle)
 {
   tjinstance *this = (tjinstance *)handle;
 
-  if (this && this->isInstanceError) {
-    this->isInstanceError = FALSE;
+  /* NOTE: isInstanceError is reset at the beginning of every API call that
+     takes the instance handle, so it can safely stay set here.  (Clearing it
+     caused a second query to return the thread's most recent message, which
+     may belong to another instance.) */
+  if (this && this->isInstanceError)
     return this->errStr;
-  } else
+  else
     return errStr;
 }
 
